@@ -220,7 +220,13 @@ let run_case op toks =
                                                 match List.nth_opt buf (int_of_z o) with Some a -> zs a | None -> "oob") offs in
                           [ "el"; string_of_int (List.length els) ] @ els
                           @ [ zs (mds_size t m.st_ext); zs (List.nth m.st_strides (r - 1)) ]
-                          @ (if z_le (stride_required xs sv) (zi 64) then [ "mda"; "1" ] else [])
+                          @ (if z_le (stride_required xs sv) (zi 64) then
+                               (* the containers the constructors create: the model's size; the two caller-supplied ones:
+                                  what the harness passes (REQUIRED-SPAN-SIZE) *)
+                               let cs = (match mda_strided_container_size t m with Some v -> zs v | None -> "ub") in
+                               let rqs = zs (stride_required xs sv) in
+                               let mo = List.fold_left (fun a o -> if z_lt a o then o else a) (zi (-1)) offs in
+                               [ "mda"; cs; cs; rqs; rqs; "64"; "64"; "1"; "1"; zs mo; "0" ] else [])
                         end in
                       join ([ "ok"; string_of_int r ] @ zl m.st_strides
                                @ List.map (fun s -> match s with Ok v -> zs v | _ -> "?") strides
@@ -233,7 +239,10 @@ let run_case op toks =
                   let tail = if z_le (stride_required xs sv) (zi 100000) && repr t (product xs)
                     then [ "el"; string_of_int (List.length so) ] @ List.map (fun o -> zs (Z.add (zi 1000) o)) so
                          @ [ zs (product xs); zs (List.nth sv (r - 1)) ]
-                         @ (if z_le (stride_required xs sv) (zi 64) then [ "mda"; "1" ] else [])
+                         @ (if z_le (stride_required xs sv) (zi 64) then
+                              let rqs = zs (stride_required xs sv) in
+                              let mo = List.fold_left (fun a o -> if z_lt a o then o else a) (zi (-1)) so in
+                              [ "mda"; rqs; rqs; rqs; rqs; "64"; "64"; "1"; "1"; zs mo; "0" ] else [])
                     else [] in
                   join ([ "ok"; string_of_int r ] @ zl sv @ zl sv @ zl xs @ [ zs (stride_required xs sv) ]
                         @ [ string_of_int (List.length so) ] @ zl so @ tail) in
